@@ -647,8 +647,13 @@ func wiringRule(c *Ctx, rule string) {
 
 // reachWithoutMarkerAvoiding: like reachWithoutMarker, with the edges establishing g deleted.
 func reachWithoutMarkerAvoiding(fn *ssa.Function, target ssa.Instruction, marker func(ssa.Instruction) bool, g Guard) bool {
+	return reachFromWithoutMarkerAvoiding(fn.Blocks[0], target, marker, g)
+}
+
+// reachFromWithoutMarkerAvoiding starts at the beginning of block start.
+func reachFromWithoutMarkerAvoiding(start *ssa.BasicBlock, target ssa.Instruction, marker func(ssa.Instruction) bool, g Guard) bool {
 	seen := map[*ssa.BasicBlock]bool{}
-	work := []*ssa.BasicBlock{fn.Blocks[0]}
+	work := []*ssa.BasicBlock{start}
 	for len(work) > 0 {
 		b := work[0]
 		work = work[1:]
@@ -674,7 +679,7 @@ func reachWithoutMarkerAvoiding(fn *ssa.Function, target ssa.Instruction, marker
 			ifi, _ = b.Instrs[n-1].(*ssa.If)
 		}
 		for i, s := range b.Succs {
-			if ifi != nil && g(ifi.Cond, i == 0) {
+			if ifi != nil && g != nil && g(ifi.Cond, i == 0) {
 				continue
 			}
 			work = append(work, s)
